@@ -654,6 +654,121 @@ def mhstat_st(draw, tier="quick"):
             "seed": draw(st.integers(0, 2 ** 31 - 1))}
 
 
+# ------------------------------------------------------------------ task sameobj: f and log p are two methods of ONE object
+
+def run_sameobj(case):
+    """integrand and log-density are two methods of the same EditableModule / nn.Module and share a differentiable tensor `w`
+    (f also owns `a`, log p also owns `mu`); deterministic mhcustom chain; reference = self-normalised surrogate
+    sum_i r_i f_i / sum_i r_i, r_i = exp(logp_i - stopgrad(logp_i)), on the samples recorded from f's own call log."""
+    from xitorch.integrate import mcquad
+    import xitorch
+    torch.manual_seed(0)
+    g = gen.seeded(case["seed"])
+    m = case["m"]
+    kind = case["kind"]
+    req = case["req"]
+    vals = [0.5 + torch.rand((m,), generator=g, dtype=DT), 0.5 + torch.rand((m,), generator=g, dtype=DT), 0.3 * torch.randn((m,), generator=g, dtype=DT)]
+    if kind == "nn":
+        a, w, mu = (torch.nn.Parameter(v, requires_grad=bool(r)) for v, r in zip(vals, req))
+    else:
+        a, w, mu = (v.requires_grad_(bool(r)) for v, r in zip(vals, req))
+    flog = []
+    vec = case["out"] == "vector"
+
+    def fval(x, a_, w_):
+        y = a_ * torch.sin(w_ * x.reshape(-1)) + 0.1 * x.reshape(-1) ** 2
+        return y if vec else y.sum()
+
+    def lpval(x, mu_, w_):
+        return -0.5 * (((x.reshape(-1) - mu_) * w_) ** 2).sum()
+    base = torch.nn.Module if kind == "nn" else xitorch.EditableModule
+
+    class Both(base):
+        def __init__(self):
+            if kind == "nn":
+                super().__init__()
+            self.a, self.w, self.mu = a, w, mu
+
+        def f(self, x):
+            flog.append(x.detach().clone())
+            return fval(x, self.a, self.w)
+
+        def logp(self, x):
+            return lpval(x, self.mu, self.w)
+
+        def getparamnames(self, methodname, prefix=""):
+            if methodname == "f":
+                return [prefix + "a", prefix + "w"]
+            if methodname == "logp":
+                return [prefix + "mu", prefix + "w"]
+            raise KeyError(methodname)
+    obj = Both()
+    ns, nb = case["nsamples"], case["nburnout"]
+    c, sh = case["contr"], case["shift"]
+
+    def custom_step(x, *args):
+        return c * x + sh
+    x0 = torch.tensor(case["x0"][:m], dtype=DT)
+    labels = ["task=sameobj", "kind=" + kind, "out=" + case["out"], "order=%d" % case["order"], "req=%s" % "".join("1" if r else "0" for r in req)]
+    wrt = [t for t, r in zip((a, w, mu), req) if r]
+    names = [n for n, r in zip(("a", "w", "mu"), req) if r]
+    if not wrt:
+        return discard("nothing_to_differentiate", labels)
+    res = xt_call(mcquad, obj.f, obj.logp, x0, method="mhcustom", nsamples=ns, nburnout=nb, custom_step=custom_step, _where="forward")
+    pts = list(flog)
+    samples = pts[1:] if len(pts) == ns + 1 else pts
+    if len(samples) != ns:
+        return violation("nsamples_count", "f was evaluated at %d points, nsamples=%d" % (len(pts), ns), labels)
+    fs = torch.stack([fval(x, a, w).reshape(-1) for x in samples])           # (ns, k)
+    lps = torch.stack([lpval(x, mu, w) for x in samples])                     # (ns,)
+    r = torch.exp(lps - lps.detach())
+    ref = (r.unsqueeze(-1) * fs).sum(0) / r.sum()
+    got_v = res.reshape(-1)
+    if got_v.shape != ref.shape or float((got_v.detach() - ref.detach()).abs().max()) > 1e-12 * (1 + float(ref.detach().abs().max())):
+        return violation("value", "value %s, explicit sample mean %s" % (fmt(got_v), fmt(ref)), labels)
+    W = torch.randn(ref.shape, generator=g, dtype=DT)
+    second = case["order"] == 2
+    if not res.requires_grad:
+        return violation("no_graph", "result does not require grad although %s do" % names, labels)
+    gl = xt_call(torch.autograd.grad, (got_v * W).sum(), wrt, create_graph=second, allow_unused=True, _where="backward")
+    gl = [torch.zeros_like(x) if q is None else q for q, x in zip(gl, wrt)]
+    rl = grads_or_zero((ref * W).sum(), wrt, create_graph=second)
+    nonzero = False
+    for order in ((1, 2) if second else (1,)):
+        if order == 2:
+            C = [torch.randn(x.shape, generator=g, dtype=DT) for x in wrt]
+            terms = [(c_ * q).sum() for c_, q in zip(C, gl) if q.requires_grad]
+            rterms = [(c_ * q).sum() for c_, q in zip(C, rl) if q.requires_grad]
+            if not terms:
+                if rterms:
+                    return violation("no_second_graph", "create_graph=True produced gradients without graph", labels)
+                break
+            gl = xt_call(torch.autograd.grad, sum(terms), wrt, allow_unused=True, _where="backward2")
+            gl = [torch.zeros_like(x) if q is None else q for q, x in zip(gl, wrt)]
+            rl = grads_or_zero(sum(rterms), wrt) if rterms else [torch.zeros_like(x) for x in wrt]
+        for nm, q, rr in zip(names, gl, rl):
+            sc = float(rr.detach().abs().max())
+            err = float((q.detach() - rr.detach()).abs().max())
+            nonzero = nonzero or sc > 0
+            if not err <= 1e-9 * (1 + sc) * ns:
+                return violation("grad%d_%s" % (order, nm), "order-%d gradient w.r.t. %s (f and log p are methods of one %s sharing w): got %s, surrogate reference %s" % (
+                    order, nm, "nn.Module" if kind == "nn" else "EditableModule", fmt(q), fmt(rr)), labels)
+    return ok(labels, nontrivial=nonzero and req[1])
+
+
+@st.composite
+def sameobj_st(draw, tier="quick"):
+    m = draw(st.integers(1, 3))
+    req = [draw(st.sampled_from([True, True, False])) for _ in range(3)]
+    if not any(req):
+        req[1] = True
+    return {"m": m, "kind": draw(st.sampled_from(["em", "nn"])), "out": draw(st.sampled_from(["scalar", "vector"])), "req": req,
+            "nsamples": draw(st.integers(1, 6)), "nburnout": draw(st.integers(0, 4)), "contr": draw(st.sampled_from([0.5, 0.8, -0.6])),
+            "shift": draw(st.sampled_from([0.3, -0.2, 1.0])), "x0": [draw(FL) for _ in range(3)], "order": draw(st.sampled_from([1, 1, 2])),
+            "seed": draw(st.integers(0, 2 ** 31 - 1))}
+
+
 def tasks(tier):
     return [Task("mcq", strategy=case_st(tier), run=run_case, examples={"quick": 3000, "thorough": 50000}),
-            Task("mhstat", strategy=mhstat_st(tier), run=run_mhstat, examples={"quick": 160, "thorough": 1600})]
+            Task("mhstat", strategy=mhstat_st(tier), run=run_mhstat, examples={"quick": 160, "thorough": 1600}),
+            Task("sameobj", strategy=sameobj_st(tier), run=run_sameobj, examples={"quick": 300, "thorough": 3000})]
